@@ -227,3 +227,41 @@ B("b15", ["C12", "C09"], VI,
   "        # Final checkpoint if enabled\n        if self.is_checkpointing_enabled:\n            self.save(self.iteration)\n",
   "        # Final checkpoint (save() returns early when checkpointing is disabled)\n        self.save(self.iteration)\n",
   "final save without the redundant guard")
+
+# =============================================================================== C19
+M("m73", "C19", "R19.1", SPACES, "tuple(vector - mins), dimensions", "tuple(vector), dimensions", "mins offset removed again (the original defect)")
+M("m73b", "C19", "R19.1", SPACES, "tuple(vector - mins), dimensions", "tuple(vector + mins), dimensions", "mins added instead of subtracted")
+M("m74", "C19", "R19.4", SPACES, 'mode="clip"', 'mode="wrap"', "wrap instead of clip")
+M("m75", "C19", ["R19.2", "R19.3"], SPACES, "np.arange(min_val, max_val + 1)  # +1 to include max_val", "np.arange(min_val, max_val)", "upper bound excluded", survives="no")
+M("m75b", "C19", "R19.2", SPACES, "dimensions = maxs - mins + 1", "dimensions = maxs - mins", "dimensions one short", survives="no")
+M("m75c", "C19", "R19.3", SPACES, "for min_val, max_val in zip(mins, maxs)", "for min_val, max_val in zip(mins[::-1], maxs[::-1])", "ranges in reversed dimension order", survives="no")
+B("b16", ["C19"], SPACES, "dimensions = maxs - mins + 1  # +1 because bounds are inclusive", "dimensions = 1 + (maxs - mins)", "operands commuted")
+B("b17", ["C19"], SPACES, "tuple(vector - mins), dimensions", "tuple(-mins + vector), dimensions", "operands commuted in the index")
+
+# =============================================================================== C20
+M("m82", "C20", "R20.1", SOLVER, "from hydra.utils import instantiate\n", "", "instantiate import deleted (original defect D2)")
+M("m83", "C20", "R20.2", SOLVER, 'logger.info(f"Solver initialized with {self.problem.name} problem")', 'logger.info(f"Solver initialized with {problem.name} problem")',
+  "log line dereferences the None-able parameter again (D2)")
+M("m84", "C20", "R20.5", LOGGING, "    decimal_places = max(0, min(decimal_places, max_decimals))", "    decimal_places = min(decimal_places, max_decimals)", "precision clamp deleted (D3)")
+M("m84b", "C20", "R20.5", LOGGING, "    if not np.isfinite(epsilon):\n        return \".0f\"\n", "", "non-finite guard deleted (D3, gamma == 0)")
+M2("m85", "C20", "R20.6", [
+    (SOLVER, "        # Store core attributes\n        self.gamma = jnp.array(self.config.gamma)\n", "        # Store core attributes\n", None),
+    (SOLVER, "        # Set up precision before any JAX array is created or the problem is built\n",
+     "        self.gamma = jnp.array(self.config.gamma)\n        # Set up precision before any JAX array is created or the problem is built\n", None)],
+   "gamma array created above the 64-bit switch (D4a)")
+M("m76", "C20", "R20.3", PI, "        if self.epsilon <= 0:\n            raise ValueError(\"epsilon must be positive\")\n", "", "PI: epsilon guard deleted")
+M("m77", "C20", "R20.3", SAVI, "        if not 0 <= self.gamma <= 1:\n            raise ValueError(\"gamma must be between 0 and 1\")\n", "", "SAVI: gamma guard deleted")
+M("m78", "C20", "R20.3", PVI, "        if self.period <= 0:\n            raise ValueError(\"Period must be positive\")\n", "", "PVI: period guard deleted", survives="(yes)")
+M("m79", "C20", "R20.3", RVI, "        if not self.gamma == 1.0:\n            raise ValueError(\"gamma must be 1.0 for relative value iteration\")\n", "", "RVI: gamma == 1 guard deleted")
+M("m80", "C20", "R20.3", DEMOOR, "        if self.issue_policy not in [\"fifo\", \"lifo\"]:\n            raise ValueError(\"issue_policy must be 'fifo' or 'lifo'\")\n", "", "De Moor: issue_policy guard deleted")
+M("m81", "C20", "R20.3", VI, "        if not 0 <= self.gamma <= 1:", "        if not 0 < self.gamma <= 1:", "VI: gamma = 0 rejected")
+M("m81b", "C20", "R20.3", FOREST, "        if not 0 <= self.p <= 1:", "        if not 0 <= self.p < 1:", "Forest: p = 1 rejected")
+M("m81c", "C20", "R20.3", HENDRIX, "        if self.max_order_quantity_b <= 0:", "        if self.max_order_quantity_b < 0:", "Hendrix: zero order limit for B accepted")
+M("m81d", "C20", "R20.3", MIRJ, "        if len(self.weekday_demand_negbin_delta) != 7:", "        if len(self.weekday_demand_negbin_delta) != 6:", "Mirjalili: wrong weekday vector length", survives="no")
+M("m81e", "C20", "R20.3", VI, "        if self.max_checkpoints < 0:\n            raise ValueError(", "        if self.max_checkpoints < 0:\n            raise KeyError(", "VI: wrong exception type")
+M("m81f", "C20", "R20.3", PVI, "        if self.gamma == 1.0 and self.period < 2:", "        if self.gamma == 1.0 and self.period < 1:", "PVI: period 1 accepted for gamma == 1", survives="(yes)")
+M("m64c", "C20", "R20.4", FOREST, '_target_: str = "mdpax.problems.forest.Forest"', '_target_: str = "mdpax.problems.forests.Forest"', "Forest _target_ typo")
+B("b11", ["C20"], VI, "        if self.epsilon <= 0:\n            raise ValueError(\"epsilon must be positive\")", "        if not self.epsilon > 0:\n            raise ValueError(\"epsilon must be positive\")", "guard spelled with not >")
+B("b18", ["C20"], VI, "        if not 0 <= self.gamma <= 1:", "        if self.gamma < 0 or self.gamma > 1:", "gamma guard as a disjunction")
+B("b19", ["C20"], LOGGING, "    decimal_places = max(0, min(decimal_places, max_decimals))", "    decimal_places = min(max(decimal_places, 0), max_decimals)", "clamp in the other nesting order")
+B("b20", ["C20"], PI, "        if self.max_eval_iter <= 0:", "        if self.max_eval_iter < 1:", "integer guard as < 1")
